@@ -129,7 +129,74 @@ class Result:
     pass
 
 
-def run_one(b, model_exe, s, wd, text=None):
+# ------------------------------------------------------------------ the registry API as an operation sequence
+WALK = {"E": ("RE", "NE", "AE"), "T": ("RT", "NT", "AT"), "S": ("RS", "NS", "AS")}
+
+
+def reg_script(s, rnd):
+    """walks of the three tables interleaved with read-only queries, in fixed patterns and at random"""
+    ents = [e["name"].lower() for e in s.entities]
+    types = [t["name"].lower() for t in s.types]
+
+    def q():
+        c = rnd.random()
+        if c < 0.3:
+            return "CE"
+        if c < 0.4:
+            return "CF"
+        if c < 0.6:
+            return "FE:" + (rnd.choice(ents) if rnd.random() < 0.8 else "no_such_entity")
+        if c < 0.75 and types:
+            return "FT:" + (rnd.choice(types) if rnd.random() < 0.8 else "no_such_type")
+        if c < 0.85:
+            return "FS:" + (s.name.lower() if rnd.random() < 0.8 else "no_such_schema")
+        return "OC:" + rnd.choice(ents)
+    e0 = ents[0]
+    ops = f"CE RE AE  RE CE AE  RE NE CE AE  RE NE NE CF FE:{e0} OC:{e0} AE  RT CE NT AT  RS CE AS  " \
+          f"RE NE RT NT CE AT NE RS NS AS AE  RE AE NE CE RE AE".split()
+    for k in range(len(ents) + 1):          # a query after exactly k steps of the entity walk
+        ops += ["RE"] + ["NE"] * k + [q(), "AE"]
+    allops = ["RE", "NE", "AE", "RT", "NT", "AT", "RS", "NS", "AS"]
+    for _ in range(40):
+        ops.append(q() if rnd.random() < 0.45 else rnd.choice(allops))
+    ops += ["RE", q(), "AE", "RT", q(), "AT", "RS", q(), "AS"]
+    return ops
+
+
+def reg_oracle(s, ops, out):
+    """every walk started by a Reset enumerates exactly the declarations; counts and look-ups agree with the schema"""
+    want = {"E": sorted(e["name"].lower() for e in s.entities), "T": sorted(t["name"].lower() for t in s.types), "S": [s.name.lower()]}
+    abstract = {e["name"].lower() for e in s.entities if e["abstract"]}
+    col = {"E": None, "T": None, "S": None}
+    if len(out) != len(ops):
+        return f"registry script: {len(out)} answers for {len(ops)} operations ({out[-1] if out else ''!r})"
+    for i, (op, r) in enumerate(zip(ops, out)):
+        w = r.split()
+        code = op[:2]
+        for k, (rs, nx, al) in WALK.items():
+            if code == rs:
+                col[k] = []
+            elif code in (nx, al) and col[k] is not None:
+                if w[1] == "name":
+                    col[k].append(w[2])
+                else:
+                    got = col[k] + (w[2:] if w[1] == "names" else [])
+                    col[k] = None
+                    if sorted(got) != want[k]:
+                        ctxt = " ".join(ops[max(0, i - 8):i + 1])
+                        return (f"a walk of the {dict(E='entity', T='type', S='schema')[k]} table started by Reset enumerated {got}, "
+                                f"the schema declares {want[k]} (operations … {ctxt})")
+        if code == "CE" and w[2] != str(len(want["E"])):
+            return f"GetEntityCnt() = {w[2]}, the schema has {len(want['E'])} entities"
+        if code in ("FE", "FT", "FS", "OC"):
+            n = op[3:]
+            exp = {"FE": n in want["E"], "FT": n in want["T"], "FS": n in want["S"], "OC": n in want["E"]}[code]   # ObjCreate does not look at abstractness
+            if w[2] != ("1" if exp else "0"):
+                return f"{op}: answered {w[2]}, expected {int(exp)}"
+    return None
+
+
+def run_one(b, model_exe, s, wd, text=None, script_seed=0, script_ops=None):
     """returns Result: status in {'invalid','gen-fail','compile-fail','run-fail','ok'} + dumps"""
     R = Result()
     R.schema, R.text, R.ast = s, (text or s.text()), s.ast()
@@ -172,6 +239,27 @@ def run_one(b, model_exe, s, wd, text=None):
         R.status, R.detail = "run-fail", f"harness rc={rr.returncode}; last line {R.real[-1] if R.real else ''!r}; {rr.stderr[-300:]}"
     else:
         R.real = R.real[:-1]
+    # the registry API as an operation sequence
+    import random
+    R.script = script_ops or reg_script(s, random.Random(script_seed))
+    sp = os.path.join(wd, "script.txt")
+    open(sp, "w").write(" ".join(R.script) + "\n")
+    try:
+        rs = subprocess.run([exe, sp], env=b.env(), capture_output=True, text=True, timeout=120)
+        lines = [l for l in rs.stdout.split("\n") if l]
+        R.reg_rc = rs.returncode
+    except subprocess.TimeoutExpired:
+        lines, R.reg_rc = [], "timeout"
+    R.reg_ref = {l.split()[1]: l.split()[2:] for l in lines if l.startswith("REF ")}
+    R.reg_real = [l for l in lines if l.startswith("R ")]
+    if R.reg_ref:
+        feed = "".join(f"reg {k} " + " ".join(R.reg_ref.get(k, [])) + "\n" for k in "ETS")
+        feed += "reg A " + " ".join(e["name"].lower() for e in s.entities if e["abstract"]) + "\n"
+        feed += "reg run " + " ".join(R.script) + "\n"
+        mm = subprocess.run([model_exe], input=feed, capture_output=True, text=True)
+        R.reg_model = [l for l in mm.stdout.split("\n") if l.startswith("R ")]
+    else:
+        R.reg_model = []
     return R
 
 
@@ -281,6 +369,10 @@ def oracle(R):
     for l in acc:
         if not l.endswith(" ok") and " ok " not in l:
             probs.append(("accessor", f"accessor does not read back what the mutator stored: {l}", None))
+    if getattr(R, "script", None) is not None and R.status == "ok":
+        e = reg_oracle(s, R.script, [l for l in R.reg_real])
+        if e:
+            probs.append(("registry-walk", e, ("script", None)))
     # numbering: a_<idx> distinct and dense
     if getattr(R, "idx", None) is not None:
         n_attr = sum(len(e["attrs"]) for e in s.entities)
@@ -295,6 +387,10 @@ def correspondence(R):
         return None
     _, mdl, _ = canon_real(R.real)
     if mdl == R.model:
+        if getattr(R, "script", None) is not None and R.reg_real != R.reg_model:
+            for i, (x, y) in enumerate(zip(R.reg_real + [None] * len(R.reg_model), R.reg_model + [None] * len(R.reg_real))):
+                if x != y:
+                    return f"registry script op #{i} {R.script[i] if i < len(R.script) else ''}: implementation {x!r} vs model {y!r}"
         return None
     for i, (x, y) in enumerate(zip(mdl + [None] * len(R.model), R.model + [None] * len(mdl))):
         if x != y:
@@ -349,6 +445,8 @@ def report(ctx, b, model_exe, R, label):
             s2, R2 = R.schema, R
             if F.lookup(ctx.pid, key):
                 decl = None            # a listed finding: no need to minimise it again
+            if decl and decl[0] == "script":
+                decl = None
             if decl and decl[0] == "shrink":
                 s2, R2 = shrink_schema(ctx, b, model_exe, R.schema, key)
                 if R2 is None:
@@ -366,6 +464,8 @@ def report(ctx, b, model_exe, R, label):
                         what = next(w for k, w, _ in oracle(Rc) if k == key)
             ctx.violation(key, what, {"schema_exp": R2.text, "schema_json": schema_json(s2), "stream": label,
                                       "implementation_dump": R2.real[:200], "detail": R2.detail,
+                                      "registry_script": " ".join(getattr(R2, "script", None) or []),
+                                      "registry_answers": getattr(R2, "reg_real", [])[:400],
                                       "how": "./check C02 --replay <this file>  (exp2cxx on schema_exp, compile with harness/h_dict.cc, run)"})
         return "property"
     c = correspondence(R)
@@ -463,7 +563,8 @@ def run_batch(ctx, b, model_exe, items, label):
     t0 = time.time()
     res = {}
     with cf.ThreadPoolExecutor(max_workers=min(14, (os.cpu_count() or 8))) as ex:
-        futs = {ex.submit(run_one, b, model_exe, s, os.path.join(ctx.work, f"{label}-{i}"), text): (i, nm)
+        seeds = [ctx.rng.randrange(1 << 30) for _ in items]
+        futs = {ex.submit(run_one, b, model_exe, s, os.path.join(ctx.work, f"{label}-{i}"), text, seeds[i]): (i, nm)
                 for i, (nm, s, text) in enumerate(items)}
         for f in cf.as_completed(futs):
             res[futs[f][0]] = f.result()
@@ -550,6 +651,7 @@ def replay(ctx, path):
     s.types = [dict(name=t["name"], body=tup(t["body"])) for t in j["types"]]
     s.entities = [dict(name=e["name"], abstract=e["abstract"], supers=e["supers"],
                        attrs=[{k: (tup(v) if k == "type" else v) for k, v in a.items()} for a in e["attrs"]]) for e in j["entities"]]
-    R = run_one(b, model_exe, s, os.path.join(ctx.work, "replay"), r.get("schema_exp"))
+    R = run_one(b, model_exe, s, os.path.join(ctx.work, "replay"), r.get("schema_exp"),
+                script_ops=(r.get("registry_script") or "").split() or None)
     ctx.count(1, key=R.text)
     report(ctx, b, model_exe, R, "replay")
